@@ -250,42 +250,48 @@ def _structural_part(chk, m):
                 "segmenting wrapper", rab.where)
 
     # ------------------------------------------------------------------ R02.4 ordering in the writer loop
-    f, loop = m.record_loop
-    outer = None
-    for n in walk_local(f.node):
-        if isinstance(n, ast.For) and n is not loop and any(x is loop for x in ast.walk(n)):
-            outer = n
-    rec_names = {t.id for t in ast.walk(outer.target) if isinstance(t, ast.Name)} if outer is not None else set()
-    rep_calls = [c for c in ast.walk(outer) if isinstance(c, ast.Call) and isinstance(c.func, ast.Attribute)
-                 and c.func.attr == "represent_as_bytes"] if outer is not None else []
-    if outer is None:
-        # the segment loop sits in a helper that is handed one record at a time: the record loop is in its caller
-        for cs in chk.cg.callers_of(f):
-            g = cs.caller
-            for n in walk_local(g.node):
-                if isinstance(n, ast.For) and any(x is cs.node for x in ast.walk(n)):
-                    loop_vars = {t.id for t in ast.walk(n.target) if isinstance(t, ast.Name)}
-                    passed = [i for i, a in enumerate(cs.node.args) if isinstance(a, ast.Name) and a.id in loop_vars]
-                    if passed:
-                        outer = n
-                        params = f.param_names[1:] if f.cls is not None and f.kind != "staticmethod" else f.param_names
-                        rec_names = {params[i] for i in passed if i < len(params)}
-                        rep_calls = [c for c in walk_local(f.node) if isinstance(c, ast.Call)
-                                     and isinstance(c.func, ast.Attribute) and c.func.attr == "represent_as_bytes"]
-    ok = outer is not None and bool(rep_calls) and all(isinstance(c.func.value, ast.Name) and c.func.value.id in rec_names
-                                                       for c in rep_calls)
-    chk.require(ok, "R02.4", "segments-nested-in-record-loop",
-                "segments are not produced inside the loop over records from that record's own bytes",
-                f"{f.module.relpath}:{loop.lineno}")
-    if outer is not None:
-        it_src = norm(outer.iter)
-        bad = any(w in it_src for w in ("sorted(", "reversed(", "set(", "shuffle", "[::-1]"))
-        chk.require(not bad, "R02.4", "record-order-preserved", f"records are reordered before writing: {it_src}",
-                    f"{f.module.relpath}:{outer.lineno}")
-        seg_src = norm(loop.iter)
-        bad = loop.iter is not m.seg_call or any(w in seg_src for w in ("sorted(", "reversed(", "[::-1]"))
-        chk.require(not bad, "R02.4", "segment-order-preserved", f"segments are reordered: {seg_src}",
-                    f"{f.module.relpath}:{loop.lineno}")
+    # Over the value-flow summary of the writer's entry method (helpers and generator helpers of the writer looked
+    # through): what reaches the output buffer is produced inside `for record in <the records given>` and, nested in
+    # it, `for segment in <that record's bytes>.<segmenter>(...)` - the iterables themselves, not a sorted / reversed /
+    # sliced / de-duplicated rearrangement of them.
+    from ..terms import ctor_calls, call_recv, is_call as _is_call2, pp as _pp2, subterms as _subterms2
+    entry = m.entry if getattr(m, "entry", None) is not None else m.record_loop[0]
+    ws = chk.terms.inline(entry, 2, stop=lambda g: g.cls is not entry.cls or g.name == "__init__")
+    bufs = ctor_calls(ws, chk.ix.get_class("BufferedOutput"))
+    sinks = [e for e in ws.effects if e.kind == "call" and call_recv(e.value) in bufs and e.loops()]
+
+    def unwrap(it, names):
+        while it[0] == "call" and it[2] and ((it[1][0] == "global" and it[1][1].split(".")[-1] in names)):
+            it = it[2][0]
+        return it
+    recs_p = ("param", entry.param_names[1]) if len(entry.param_names) > 1 else None
+    ok_nest = ok_rec = ok_seg = bool(sinks)
+    seen_iters = []
+    for e in sinks:
+        loops = e.loops()
+        seen_iters.append([_pp2(lp[2])[:70] if isinstance(lp[2], tuple) else str(lp[2]) for lp in loops])
+        if len(loops) != 2 or any(lp[0] != "for" for lp in loops):
+            ok_nest = False
+            continue
+        outer, inner = loops
+        o_it = unwrap(outer[2], ("progressbar", "iter", "list", "tuple"))
+        ok_rec = ok_rec and o_it == recs_p
+        i_it = unwrap(inner[2], ("iter", "list", "tuple"))
+        rec_el = ("elem", outer[2], outer[1])
+        seg_ok = _is_call2(i_it, m.segmenter.name) and call_recv(i_it) is not None and \
+            _is_call2(call_recv(i_it), "represent_as_bytes", 0) and call_recv(call_recv(i_it)) == rec_el
+        ok_nest = ok_nest and _is_call2(i_it) and any(x == rec_el for x in _subterms2(inner[2]))
+        ok_seg = ok_seg and seg_ok
+    where_ = f"{entry.module.relpath}:{entry.node.lineno}"
+    chk.require(ok_nest, "R02.4", "segments-nested-in-record-loop",
+                f"segments are not produced inside the loop over records from that record's own bytes ({seen_iters})",
+                where_)
+    chk.require(ok_rec, "R02.4", "record-order-preserved",
+                f"records are not consumed in the order given (outer iterable: {[s_[0] for s_ in seen_iters if s_]})",
+                where_)
+    chk.require(ok_seg, "R02.4", "segment-order-preserved",
+                f"segments are not consumed in the order the segmenter yields them "
+                f"(inner iterable: {[s_[-1] for s_ in seen_iters if s_]})", where_)
     # between the visible-record builder and the file: the output buffer keeps the order (C10 R10.1 / R10.2)
     from . import c10
     from ..report import Check
